@@ -108,6 +108,10 @@ pub struct RestartOracle {
 	/// (node, hash) -> step of the first PaymentSent
 	sent_at: BTreeMap<(usize, [u8; 32]), u64>,
 	claimable_at: BTreeMap<(usize, [u8; 32]), u64>,
+	/// (node, chan) -> steps at which a commitment_signed was delivered to the node
+	commit_deliveries: BTreeMap<(usize, ChannelId), Vec<u64>>,
+	/// (node, chan) -> ids of updates carrying a holder commitment, in hand-over order
+	holder_updates: BTreeMap<(usize, ChannelId), Vec<u64>>,
 }
 
 impl RestartOracle {
@@ -123,15 +127,18 @@ impl RestartOracle {
 			last_restart_snapshot: BTreeMap::new(),
 			sent_at: BTreeMap::new(),
 			claimable_at: BTreeMap::new(),
+			commit_deliveries: BTreeMap::new(),
+			holder_updates: BTreeMap::new(),
 		}
 	}
 
 	/// call right after `sim.snapshot_manager(node)`
 	pub fn note_snapshot(&mut self, sim: &Sim, node: usize) {
 		let Some((step, _)) = sim.snapshots[node].last() else { return };
-		let st = sim.w.persisters[node].state.lock().unwrap();
 		let mut info = SnapshotInfo::default();
-		for (c, (id, _)) in st.latest.iter() {
+		// the manager's own view: the highest update id it has handed to chain::Watch per channel (recorded by
+		// the test ChainMonitor at hand-over time, i.e. also for updates still queued in deferred mode)
+		for (c, (id, _)) in sim.w.nodes[node].chain_monitor.latest_monitor_update_id.lock().unwrap().iter() {
 			info.latest_ids.insert(*c, *id);
 		}
 		for d in sim.w.nodes[node].node.list_channels() {
@@ -151,18 +158,44 @@ impl RestartOracle {
 					}
 					self.stats.restarts += 1;
 					// (c) channels whose monitor is ahead of the manager snapshot must be closed, not resumed
+					// The manager's own update counter can run ahead of what it has handed over (blocked updates), so
+					// "monitor ahead of manager" is only asserted where it is certain: the monitor image contains a
+					// holder-commitment update that answers a commitment_signed delivered AFTER the snapshot was
+					// written -- the snapshot cannot know that update.
 					if let Some(info) = self.snap_info.get(&(node, snapshot_step)) {
 						let mut lagged = false;
 						for (c, mon_id) in monitor_ids.iter() {
+							if !info.open_channels.contains(c) {
+								continue;
+							}
+							let deliveries = self.commit_deliveries.get(&(node, *c)).cloned().unwrap_or_default();
+							let holder_updates = self.holder_updates.get(&(node, *c)).cloned().unwrap_or_default();
+							for (k, uid) in holder_updates.iter().enumerate() {
+								if *uid <= *mon_id {
+									if let Some(dstep) = deliveries.get(k) {
+										if *dstep > snapshot_step {
+											self.expect_outdated.insert((node, *c));
+											lagged = true;
+										}
+									}
+								}
+							}
 							let snap_id = info.latest_ids.get(c).cloned().unwrap_or(0);
-							if *mon_id > snap_id && info.open_channels.contains(c) {
-								self.expect_outdated.insert((node, *c));
-								lagged = true;
+							if *mon_id > snap_id {
+								self.stats.resumed_channels += 1;
 							}
 						}
 						if lagged {
 							self.stats.manager_lagged += 1;
 						}
+					}
+				},
+				M::S(SEvent::Deliver { to, wire: Wire::Commit(m), .. }) => {
+					self.commit_deliveries.entry((to, m.channel_id)).or_default().push(at);
+				},
+				M::H(HEvent::PersistUpdate { node, chan, update_id: Some(id), steps, .. }) => {
+					if steps.iter().any(|s| s.starts_with("LatestHolderCommitment")) {
+						self.holder_updates.entry((node, chan)).or_default().push(id);
 					}
 				},
 				M::S(SEvent::Ldk { node, ev }) => match &ev {
@@ -198,6 +231,14 @@ impl RestartOracle {
 						let e = self.terminal.entry((node, payment_hash.0)).or_insert((0, 0));
 						e.1 += 1;
 						self.stats.payments_failed += 1;
+						if e.0 > 0 {
+							// exact signature of the documented limitation: the node restarted from a manager written
+							// before it saw PaymentSent, and the monitor had already forgotten the resolved HTLC
+							let sent = self.sent_at.get(&(node, payment_hash.0)).cloned().unwrap_or(0);
+							let stale = self.last_restart_snapshot.get(&node).map(|s| *s < sent).unwrap_or(false);
+							let key = if stale { "contradictory-terminal-events/failed-after-sent/manager-snapshot-predates-sent" } else { "contradictory-terminal-events/failed-after-sent" };
+							return Err(fail("contradictory-terminal-events", format!("node {} reported PaymentFailed after PaymentSent for payment {} (PaymentSent at step {}, restarted from manager snapshot of step {:?})", node, payment_hash, sent, self.last_restart_snapshot.get(&node))).with_key(key));
+						}
 						// truthful failure: no part may still be pending. Decidable for a direct (one-hop) payment
 						// whose recipient holds the HTLC as claimable, has not failed it back, and whose expiry has
 						// not been reached on the chain: that HTLC is live and can still be claimed.
@@ -215,14 +256,6 @@ impl RestartOracle {
 								)
 								.with_key(key));
 							}
-						}
-						if e.0 > 0 {
-							// exact signature of the documented limitation: the node restarted from a manager written
-							// before it saw PaymentSent, and the monitor had already forgotten the resolved HTLC
-							let sent = self.sent_at.get(&(node, payment_hash.0)).cloned().unwrap_or(0);
-							let stale = self.last_restart_snapshot.get(&node).map(|s| *s < sent).unwrap_or(false);
-							let key = if stale { "contradictory-terminal-events/failed-after-sent/manager-snapshot-predates-sent" } else { "contradictory-terminal-events/failed-after-sent" };
-							return Err(fail("contradictory-terminal-events", format!("node {} reported PaymentFailed after PaymentSent for payment {} (PaymentSent at step {}, restarted from manager snapshot of step {:?})", node, payment_hash, sent, self.last_restart_snapshot.get(&node))).with_key(key));
 						}
 					},
 					_ => {},
